@@ -302,13 +302,16 @@ def run_index(ctx, pt):
                             return X
                         res('setitem-slice-int', f3, exp)
     for ln in range(0, 4):
-        for idx in itertools.product(range(n), repeat=ln):
+        for idx in itertools.chain(itertools.product(range(n), repeat=ln), itertools.product(range(-n, n), repeat=ln) if 0 < ln <= 2 else ()):
+            idx0 = tuple(idx)
             idx = list(idx)
-            res('getitem-list', lambda: A[idx], (from_bits([bl[j] for j in idx]), ln))
+            if all(j >= 0 for j in idx0):       # reading through a list with negative positions is refused by the library: not judged
+                res('getitem-list', lambda: A[idx], (from_bits([bl[j] for j in idx0]), ln))
+                ctx.eq('C08/getitem-list/index-list-changed', idx, list(idx0))
             for vi in range(1 << ln):
                 v = bits_of(ln, vi)
                 nb = list(bl)
-                for i, b in zip(idx, v):
+                for i, b in zip(idx0, v):
                     nb[i] = b
 
                 def f():
@@ -316,7 +319,9 @@ def run_index(ctx, pt):
                     X[idx] = v
                     return X, list(idx)
                 r = ctx.attempt(f)
-                ctx.eq('C08/setitem-list', (val(r[1][0]), r[1][1]) if r[0] == 'ok' else r, ((from_bits(nb), n), idx))
+                ctx.eq('C08/setitem-list', (val(r[1][0]), r[1][1]) if r[0] == 'ok' else r, ((from_bits(nb), n), list(idx0)))
+                ctx.eq('C08/setitem-list/index-list-changed', idx, list(idx0))
+                idx = list(idx0)
 
 
 # ---- boundary widths -----------------------------------------------------------
